@@ -949,3 +949,8 @@ pub(crate) fn merge_nodes(
     }
     Ok(node)
 }
+
+// verification hook (guard: cfg(kani), set only by the Kani compiler): harnesses live in /verif/kani
+#[cfg(kani)]
+#[path = "/verif/kani/tree.rs"]
+mod verif_kani;
